@@ -16,6 +16,7 @@ from typing import List, cast
 
 from sympy import Symbol
 from sympy.logic import And, Not, Or, Xor, false, true
+from sympy.logic.boolalg import BooleanFalse, BooleanTrue
 
 from . import TypeErrorException, _eq, _full_adder, _neq
 from .qtype import Qtype, TExp, TType, bin_to_bool_list, bool_list_to_bin
@@ -289,6 +290,12 @@ class QintImp(int, Qtype):
             raise TypeErrorException(tleft[0], Qtype)
         if not issubclass(tright[0], Qtype):
             raise TypeErrorException(tright[0], Qtype)
+
+        # the identity only holds for powers of two: reject any other constant
+        if all(isinstance(b, (bool, BooleanTrue, BooleanFalse)) for b in tright[1]):
+            v = sum(2**i for i, b in enumerate(tright[1]) if b)
+            if v == 0 or v & (v - 1):
+                raise Exception(f"modulo operator only works with 2^n values, got {v}")
 
         tval = tright[0].sub(tright, tright[0].const(1))
         return tleft[0].bitwise_and(tleft, tval)
